@@ -394,9 +394,8 @@ inline constexpr void Conversion<Unit::Length, Unit::Length::Microinch>::ToStand
 }
 
 template <typename NumericType>
-inline const std::
-    map<Unit::Length, std::function<void(NumericType* values, const std::size_t size)>>
-        MapOfConversionsFromStandard<Unit::Length, NumericType>{
+inline const ConversionTable<Unit::Length, NumericType>
+    MapOfConversionsFromStandard<Unit::Length, NumericType>{
           {Unit::Length::Metre,
            Conversions<Unit::Length, Unit::Length::Metre>::FromStandard<NumericType>       },
           {Unit::Length::NauticalMile,
@@ -426,8 +425,7 @@ inline const std::
 };
 
 template <typename NumericType>
-inline const std::map<Unit::Length,
-                      std::function<void(NumericType* const values, const std::size_t size)>>
+inline const ConversionTable<Unit::Length, NumericType>
     MapOfConversionsToStandard<Unit::Length, NumericType>{
       {Unit::Length::Metre,
        Conversions<Unit::Length,                             Unit::Length::Metre>::ToStandard<NumericType>       },
